@@ -45,6 +45,18 @@ CHECKS = {
  "C12": ("Go race detector over a hostile sharing workload + per-call outcome/isolation oracles on the provenance log",
          "One target, its default options, converter objects, one option slice with every option constructor, a shared redefined function and shared value sets are hammered by 4-16 goroutines doing Call/Convert/Redefine/redefined calls with per-call inputs; any race report is a violation; outcomes must equal the sequential reference; provenance of every execution's arguments must stay within one call (or shared constants).",
          "BuildFunc functions excluded as the property states; the monitor's own state is mutex protected; reports are deduplicated by top-frame pair.", "5/C12"),
+ "C14": ("round-trip oracle: Go signatures generated from label lists vs. introspection results; static rejected shapes",
+         "Function types are generated from label lists in every form with the documented tag options, unexported fields and every error-result position; Input()/Output().Values() and the lookups must reproduce the list exactly; 15 static struct shapes and non-function values cover the required rejections.",
+         "Only documented tag options are generated; the deciding comparison is structural equality of (name,type,subtype) lists.", "5/C14"),
+ "C15": ("accessor/round-trip oracles on generated value lists; provenance-exact monitoring of built-function callbacks, results and downstream consumers; twin ordinary function",
+         "Value sets from generated lists are checked for order, lookups and signature round trips; built functions are called repeatedly with fresh ids directly, as converters in front of a consumer, and next to an ordinary twin: the callback must see exactly the supplied ids (unambiguous cases), consumers and Result/FromResult exactly what the callback set, with no id surviving from an earlier call.",
+         "Exactness is only demanded where the matching table leaves a single candidate; elsewhere the C01 relation.", "5/C15"),
+ "C16": ("provenance-of-injected-values oracle over generated option lists (live-occurrence model)",
+         "Exact-match targets receive option lists with random casing, 1-3 occurrences per key split between defaults and call options, Typed(a,b) duplicates and nil values; the monitor computes the live occurrence of every key and compares it with the id each parameter actually received; nil options must produce an error result; option permutations must not change the ids of unambiguous parameters.",
+         "Type-only parameters sharing a type with another key may legitimately receive either live value (excluded from the permutation comparison).", "5/C16"),
+ "C17": ("return-value oracle over generated result lists (ids and error identity), incl. run-once and redefined callee",
+         "Functions returning 0-4 values with error results in every position, nil or not, concrete error types in final position, optionally memoized or wrapped by Redefine: Len/Out/Err must partition exactly what the body returned; resolution failures must give Len()==0 and an error.",
+         "Identity by provenance id / pointer.", "5/C17"),
 }
 
 NOT_YET = {}
